@@ -3,6 +3,7 @@ import Driver.Lib
 import Driver.Graph
 import Driver.Analysis
 import Driver.Verilog
+import Driver.CLimb
 /-! Line-protocol driver: one JSON request per input line, one JSON reply per output line. -/
 open Lean
 namespace Pyrtl.Drv
@@ -17,6 +18,7 @@ def dispatch (j : Json) : Except String Json := do
   | "adder" => cmdAdder j
   | "seqmult" => cmdSeqMult j
   | "lfsr" => cmdLfsr j
+  | "cemit" => cmdCemit j
   | "conv" => cmdConv j
   | "muxes" => cmdMuxes j
   | "cond" => cmdCond j
